@@ -4040,8 +4040,18 @@ impl<'a> ZonedDifference<'a> {
                 panic!("this should be an error too");
             }
         }
+        // If the intermediate datetime is on the same civil day as `zdt1`,
+        // then there are no whole days in the span and the remainder must be
+        // measured from `zdt1` itself. (`zmid` has the same civil datetime as
+        // `zdt1`, but when `zdt1` is the later instant of a fold, `zmid` is
+        // the earlier one.)
+        let start = if mid.date() == dt1.date() {
+            zdt1.timestamp()
+        } else {
+            zmid.timestamp()
+        };
         let remainder_nano = zdt2.timestamp().as_nanosecond_ranged()
-            - zmid.timestamp().as_nanosecond_ranged();
+            - start.as_nanosecond_ranged();
         dt2 = mid;
 
         let date_span = dt1.date().until((largest, dt2.date()))?;
